@@ -112,8 +112,29 @@ struct Runner {
         pending.push_back(v);
     }
     // choose what the run reports: a mismatch charged to the profile's property wins; the run stops either way
+    // Mismatches that concern only hidden state of pairs that are NOT edges (a label/weight/multiplicity that outlived its
+    // edge): every vertex, edge and label-on-an-edge observer still agrees with the model, so the model remains a valid
+    // judge of operator== (C06) - such a history must not be cut short before the equality oracles saw it.
+    static bool absentPairOracle(const sim::Violation &v) {
+        return v.cls.find("_of_absent_pair") != std::string::npos || v.cls.find("hasEdge_label_absent") != std::string::npos;
+    }
+    bool onlyAbsentPairMismatches() const {
+        for (auto &v : pending) if (!absentPairOracle(v)) return false;
+        return !pending.empty();
+    }
+    bool hiddenStateSeen = false;
     void settle() {
         if (pending.empty()) return;
+        if (plan.profile == "C06" && onlyAbsentPairMismatches()) {
+            bool mine = false;
+            for (auto &v : pending) if (v.prop == plan.profile) mine = true;
+            if (!mine) {
+                if (!hiddenStateSeen) res.others.push_back(pending.front());
+                hiddenStateSeen = true;
+                pending.clear();
+                return; // the run continues: equality oracles still have a valid expectation
+            }
+        }
         const sim::Violation *pick = nullptr;
         for (auto &v : pending)
             if (v.prop == plan.profile) { pick = &v; break; }
@@ -132,6 +153,12 @@ struct Runner {
         else if constexpr (kind == LABELED) return Alpha<L>::get((int)val);
         else if constexpr (kind == MULTI) return (unsigned)val;
         else return val;
+    }
+    static int alphaIdx(const L &l) {
+        if constexpr (kind == LABELED) {
+            for (int i = 0; i < ALPHA_N; ++i) if (Alpha<L>::get(i) == l) return i;
+        }
+        return -1;
     }
     double valArg(const sim::Op &op) const {
         if constexpr (kind == SIMPLE) return 0;
@@ -314,6 +341,10 @@ struct Runner {
                             L other = Alpha<L>::get((int)e->val + 1 + (int)((i + j) % (ALPHA_N - 1)));
                             if (!(other == want) && gr.hasEdge(i, j, other)) mismatch(LABEL, "hasEdge_label_false", "");
                         })
+                    } else if (mo.orphan.count(mo.key(i, j))) {
+                        // documented orphan label (setEdgeLabel with force=true on a missing edge): outside C03; the value
+                        // observed is only folded so that "unchanged after a rejected call" still sees it
+                        GS_OBS("getEdgeLabel", LABEL, { dg.i64(alphaIdx(gr.getEdgeLabel(i, j, false))); })
                     } else {
                         GS_OBS("getEdgeLabel", LABEL, {
                             bool threw = false;
@@ -566,6 +597,13 @@ struct Runner {
             }
         }
         if constexpr (kind == LABELED) {
+            if (k == "orphan") { // the one documented way to leave a label without an edge
+                if (mo.has(r.va, r.vb)) { res.probes.inc("orphan_skipped_present"); return; }
+                gr.setEdgeLabel(r.ca, r.cb, labelOf(val), true);
+                mo.orphan[mo.key(r.va, r.vb)] = 1;
+                res.probes.inc("orphan_label_created");
+                return;
+            }
             if (k == "setlab") {
                 MEdge *e = mo.find(r.va, r.vb);
                 if (!e) { res.probes.inc("setlab_skipped_absent"); return; }
@@ -590,7 +628,7 @@ struct Runner {
     }
 
     static bool isMutator(const std::string &k) {
-        static const char *ks[] = {"add", "addrec", "addmul", "addrecmul", "rem", "remmul", "setmul", "setlab", "setw",
+        static const char *ks[] = {"add", "addrec", "addmul", "addrecmul", "rem", "remmul", "setmul", "setlab", "setw", "orphan",
                                    "remloops", "remvert", "clear", "resize", "dedup"};
         for (auto s : ks) if (k == s) return true;
         return false;
@@ -784,7 +822,7 @@ struct Runner {
         curOp = "replica_build";
         sweep(*B, mb, "replicaB");
         curOp = keep;
-        if (!pending.empty()) return;
+        if (!pending.empty() && !(plan.profile == "C06" && onlyAbsentPairMismatches())) return;
         bool expect = m.sameGraph(mb);
         if (expect) res.probes.inc("replica_expected_equal"); else res.probes.inc("replica_expected_different");
         eqOracle(*g, *B, expect, mode == 0 ? "replica_same" : mode == 1 ? "replica_diff" : "replica_indep");
@@ -829,12 +867,16 @@ struct Runner {
         } catch (const std::exception &ex) {
             mismatch(catOfOp(op.k), "unexpected_exception", ex.what());
         }
-        if (pending.empty()) {
+        const bool skip = isMutator(op.k) && (op.y & F_NOSWEEP);
+        if (skip) { res.probes.inc("steps_without_observers"); sweepPending = true; }
+        if (pending.empty() && !skip) {
             sweep(*g, m, "cur");
             checkFrozen(false);
+            sweepPending = false;
         }
         settle();
     }
+    bool sweepPending = false;
 
     void run() {
         g.reset(new G((size_t)plan.n0));
@@ -853,6 +895,7 @@ struct Runner {
         }
         if (!stop) {
             curOp = "end";
+            if (sweepPending) sweep(*g, m, "final");
             checkFrozen(true);
             settle();
         }
